@@ -370,7 +370,7 @@ package rules
 
 //@ func (*repository).removeRulesFrom
 //@   props C06 C07
-//@   modifies Tree.*, elems(*)
+//@   modifies Tree.*, elems(*), map(*)
 //@   ensures r.index == old(r.index) && r.knownRules == old(r.knownRules)
 
 // AddRuleSet: writers are serialised by knownRulesMutex from before the index is copied until the
